@@ -57,6 +57,35 @@ func transformFile(filename string, src []byte, kind astKind, info *types.Info, 
 		if pick != nil && !pick(fd.Name.Name) {
 			continue
 		}
+		if kind == "earlyreturn" {
+			// void functions and closures whose body ends in if/else: if c {A} else {B}  ->  if c {A; return}; B
+			var rewrite func(body *ast.BlockStmt, void bool)
+			rewrite = func(body *ast.BlockStmt, void bool) {
+				if body == nil || len(body.List) == 0 || !void {
+					return
+				}
+				last, ok := body.List[len(body.List)-1].(*ast.IfStmt)
+				if !ok {
+					return
+				}
+				els, ok := last.Else.(*ast.BlockStmt)
+				if !ok {
+					return
+				}
+				last.Body.List = append(last.Body.List, &ast.ReturnStmt{})
+				last.Else = nil
+				body.List = append(body.List, els.List...)
+				n++
+			}
+			rewrite(fd.Body, fd.Type.Results == nil)
+			ast.Inspect(fd.Body, func(node ast.Node) bool {
+				if fl, ok := node.(*ast.FuncLit); ok {
+					rewrite(fl.Body, fl.Type.Results == nil)
+				}
+				return true
+			})
+			continue
+		}
 		ast.Inspect(fd.Body, func(node ast.Node) bool {
 			switch x := node.(type) {
 			case *ast.BinaryExpr:
@@ -101,6 +130,19 @@ func transformFile(filename string, src []byte, kind astKind, info *types.Info, 
 					n++
 				}
 			case *ast.IfStmt:
+				if kind == "demorgan" {
+					// if a && b  ->  if !(!(a) || !(b))      if a || b  ->  if !(!(a) && !(b))
+					if be, ok := x.Cond.(*ast.BinaryExpr); ok && (be.Op == token.LAND || be.Op == token.LOR) {
+						op := token.LOR
+						if be.Op == token.LOR {
+							op = token.LAND
+						}
+						neg := func(e ast.Expr) ast.Expr { return &ast.UnaryExpr{Op: token.NOT, X: &ast.ParenExpr{X: e}} }
+						x.Cond = neg(&ast.BinaryExpr{X: neg(be.X), Op: op, Y: neg(be.Y)})
+						n++
+					}
+					return true
+				}
 				if kind != kindNegate {
 					return true
 				}
